@@ -178,6 +178,9 @@ func buildPaths(h *expr.HTTPExpr, bodies map[string]map[string]*EndpointBodies, 
 			}
 
 			for _, key := range f.RequestPaths {
+				// Same workaround as for endpoint routes: {*name} is not a valid
+				// OpenAPI path template.
+				key = expr.HTTPWildcardRegex.ReplaceAllString(key, "/{$1}")
 				operation := buildFileServerOperation(key, f, api)
 				path, ok := paths[key]
 				if !ok {
@@ -373,6 +376,7 @@ func buildFileServerOperation(key string, fs *expr.HTTPFileServerExpr, api *expr
 					Description: "Relative file path",
 					In:          "path",
 					Required:    true,
+					Schema:      &openapi.Schema{Type: openapi.String},
 				},
 			}
 			params = []*ParameterRef{&pref}
